@@ -177,7 +177,8 @@ def option_variation_cases(tier, seed, Dchoices=(1, 2, 3), lands=("quad", "l1", 
             var += [(k, "half", None), (k, "double", None)] if k not in DEGENERATE_HALF else [(k, "double", None)]
     # options whose default is None / non-numeric but which have documented numeric values
     # (tol_noise = 0: "differ by MORE than tol_noise" - identical repeats are still deterministic)
-    var += [("noise_size", "set", 0.0632), ("noise_size", "set", 1.0), ("fun_eval_start", "set", 1), ("tol_noise", "set", 0.0), ("tol_noise", "set", 0)]
+    var += [("noise_size", "set", 0.0632), ("noise_size", "set", 1.0), ("fun_eval_start", "set", 1), ("tol_noise", "set", 0.0), ("tol_noise", "set", 0),
+            ("display", "set", "iter"), ("display", "set", "full"), ("display", "set", "final")]
     rs = np.random.RandomState(seed + 97)
     modes = ["det", "auto", "he", "declared"]
     for j, (k, how, _) in enumerate(var):
